@@ -89,6 +89,6 @@ def run(ctx, rep) -> None:
     rep.rule("C15.2", "guards: non-flat shard raises first; empty range yields []; last dimension returns the block; outer returns only the helper's result")
     rep.rule("C15.3", "the FSDP and HSDP copies agree")
     rep.rule("C15.4", "recursion increases `dimension` at every call; whole-block descent only under strict center_start > center_end")
-    recovery_rules(ctx, rep, "C15", [FSDP, HSDP])
-    sibling_pairs(ctx, rep, "C15.3", [(FSDP, HSDP, "_split_tensor_block_recovery")])
+    rep.attempt("recovery_rules", recovery_rules, ctx, rep, "C15", [FSDP, HSDP])
+    rep.attempt("sibling_pairs", sibling_pairs, ctx, rep, "C15.3", [(FSDP, HSDP, "_split_tensor_block_recovery")])
     rep.assume("that the pieces partition [start,end), are slabs of the stated form and are minimal in number is integer arithmetic over all shapes and ranges: NOT decided")
